@@ -81,12 +81,17 @@ func lockOrder(id string) func(s *Session, tier string) []*FuncResult {
 // sweepModes runs every function of the loaded packages that is not under contract through the
 // symbolic executor with an empty contract, keeping only the ownership-mode and lock obligations.
 func sweepModes(id string) func(s *Session, tier string) []*FuncResult {
+	return sweepKinds(id, map[string]bool{"mode": true, "lockorder": true, "lockset": true})
+}
+
+func sweepKinds(id string, kinds map[string]bool) func(s *Session, tier string) []*FuncResult {
 	return func(s *Session, tier string) []*FuncResult {
 		var out []*FuncResult
 		skipped := 0
 		for _, fn := range s.P.AllFns {
 			name := s.P.ShortName(fn)
-			if fc := s.W.ContractFor(fn); fc != nil {
+			realFC := s.W.ContractFor(fn)
+			if realFC != nil && (realFC.Trusted || hasProp(realFC.Props, id) || hasProp(realFC.NoPanicProps, id)) {
 				continue
 			}
 			if len(fn.Blocks) == 0 || fn.Name() == "init" || strings.HasPrefix(name, "init$") || fn.Synthetic != "" {
@@ -95,7 +100,12 @@ func sweepModes(id string) func(s *Session, tier string) []*FuncResult {
 			if strings.HasSuffix(s.P.Fset.Position(fn.Pos()).Filename, ".pb.go") || strings.Contains(s.P.Fset.Position(fn.Pos()).Filename, "testing_gorums") {
 				continue
 			}
-			x := NewExec(s.W, fn, &FuncContract{Name: name, Mode: "concurrent", Opts: map[string]string{}, Props: []string{id}}, name)
+			fc := &FuncContract{Name: name, Mode: "concurrent", Opts: map[string]string{}, Props: []string{id}}
+			if realFC != nil {
+				// under contract for other properties: keep its contract (preconditions, hooks), judge only the modes
+				fc = realFC
+			}
+			x := NewExec(s.W, fn, fc, name)
 			x.maxPaths = 600
 			r := x.VerifyFunction()
 			r.HasContract = false
@@ -107,7 +117,7 @@ func sweepModes(id string) func(s *Session, tier string) []*FuncResult {
 			}
 			var keep []*Oblig
 			for _, o := range r.Obligs {
-				if o.Kind == "mode" || o.Kind == "lockorder" || o.Kind == "lockset" {
+				if kinds[o.Kind] && (o.Kind != "effect" || strings.HasPrefix(o.Name[strings.Index(o.Name, "/")+1:], "lockhold")) {
 					if len(o.Props) == 0 {
 						o.Props = []string{id}
 					}
@@ -191,7 +201,8 @@ var plans = map[string]*propertyPlan{
 		Explain: "Sender: per dequeued request exactly one of {handed to sendMsg successfully, one error routed}, every error stamped with the node's id; receiver: on a stream error cancelPendingMsgs runs before anything that can block; cancelPendingMsgs answers every pending router once with the Unavailable stream-down error and removes it; reply loops record one nodeError per failed answer; WrapMessage maps handler errors to their status (Unknown + text for non-status errors). The kind of raw gRPC send errors is not decided."},
 	"C08": {ID: "C08", Level: "other", Pkgs: rootPkg,
 		Explain: "Blocking-effect contracts: every blocking point on a call's own path (RPCCall, QuorumCall, AsyncCall and its handler, CorrectableCall and its handler, Unicast, Multicast, enqueue, sendMsg and its watcher) is a select containing the call's own context, a credited (non-blocking) send, a short-hold lock, or an external stream call trusted to return on cancellation. RPCCall returns the context's own error. Structural condition only: no wall-clock bound is claimed."},
-	"C09": {ID: "C09", Level: "other", Pkgs: rootPkg, Extra: lockOrder("C09"),
+	"C09": {ID: "C09", Level: "other", Pkgs: rootPkg,
+		Extra: combine(sweepKinds("C09", map[string]bool{"lockorder": true, "lockset": true, "effect": true}), lockOrder("C09")),
 		Explain: "Local no-wedge disciplines: every send on a router channel is credited (cannot block) for non-streaming routers; no blocking operation while holding responseMut, mu, RawManager.mu or (beyond SendMsg/NodeStream) streamMut; the lock-order graph is acyclic; reply channels have capacity for every registration. No global liveness claim."},
 	"C10": {ID: "C10", Level: "other", Pkgs: rootPkg, Extra: reconnectWakeup,
 		Explain: "Every NodeStream call site derives its context from the channel's parent context, which newContext builds from the general metadata joined with the per-node metadata of exactly this node; the sender tries to connect before judging a request; newNodeStream starts the receiver at most once; the server's connect callback runs exactly once per connection before the first receive. Clause b (no back-off wait) only as a structural wake-up condition."},
